@@ -91,20 +91,29 @@ func (fs *FileSystemOperation) Restore() error {
 		return err
 	}
 
-	// We iterate over the diff and restore, with their backed up content,
-	// the files that have changed or were deleted since the backup.
-	for path, content := range fs.backUp.GetDiff(fileSystemSnapshot.dataMD5) {
-		if err := fs.storeFileOnDisk(path, content); err != nil {
-			return err
-		}
-	}
-
-	// Files that did not exist when the backup was taken are removed.
+	// Files that did not exist when the backup was taken are removed first: one
+	// of them may stand where a backed up file needs a directory, or be inside
+	// a directory that stands where a backed up file was.
 	for path := range fileSystemSnapshot.data {
 		if _, found := fs.backUp.data[path]; !found {
 			if err := fs.cleanUpFile(path); err != nil {
 				return err
 			}
+		}
+	}
+
+	// We iterate over the diff and restore, with their backed up content,
+	// the files that have changed or were deleted since the backup.
+	for path, content := range fs.backUp.GetDiff(fileSystemSnapshot.dataMD5) {
+		// A directory created since the backup where the file was: whatever it
+		// held has been removed above, only empty directories can be left.
+		if info, err := os.Stat(path); err == nil && info.IsDir() {
+			if err := os.RemoveAll(path); err != nil {
+				return err
+			}
+		}
+		if err := fs.storeFileOnDisk(path, content); err != nil {
+			return err
 		}
 	}
 
